@@ -37,7 +37,8 @@ def lean_stage(pid, P):
         else:
             ok = True   # the failure is in a module this property does not depend on
     if ok and theorems:
-        ax = vlib.audit_axioms(theorems)
+        mods = [".".join(f.relative_to(LEAN).with_suffix("").parts) for f in files if f.exists()]
+        ax = vlib.audit_axioms(theorems, mods or ["CollectionsC"])
         res["axioms"] = ax
         for t, a in ax.items():
             if a is None:
@@ -145,26 +146,31 @@ def growth_hook(container):
         f = float(m.group(1)) if m else 2.0
         if f <= 1.0 or container in ("deque", "queue", "hashtable", "hashset"):
             f = 2.0
-        n = 0
-        reallocs = 0
+        n = {}
+        reallocs = {}
         need = 2 if container in ("hashtable", "hashset") else 1
         for i, op in enumerate(ops):
             name = op.split()[0]
-            if name not in appends or "o=" in op or i >= len(c_lines):
+            if name not in appends or i >= len(c_lines):
                 continue
+            mo = re.search(r"\bo=(\d+)", op)
+            slot = mo.group(1) if mo else "0"
             cs = vlib.sections(c_lines[i])
             mf = vlib.mem_fields(cs[2])
             if not mf or not re.search(r"\bst=0\b", cs[0]):
                 continue
-            n += 1
+            n[slot] = n.get(slot, 0) + 1
             if mf["a"] >= need:
-                reallocs += 1
-        if n < 16:
-            return []
-        bound = math.ceil(math.log(n) / math.log(f)) + math.ceil(1.0 / (f - 1.0)) + 2
-        if reallocs > bound:
-            return [Diff("growth-count", h, len(ops) - 1, ops[-1], f"{reallocs} buffer reallocations for {n} appends, factor {f}, bound {bound}", "L2")]
-        return []
+                reallocs[slot] = reallocs.get(slot, 0) + 1
+        out = []
+        for slot, cnt in n.items():
+            if cnt < 16:
+                continue
+            bound = math.ceil(math.log(cnt) / math.log(f)) + math.ceil(1.0 / (f - 1.0)) + 2
+            if reallocs.get(slot, 0) > bound:
+                out.append(Diff("growth-count", h, len(ops) - 1, ops[-1],
+                                f"object {slot}: {reallocs[slot]} buffer reallocations for {cnt} appends, factor {f}, bound {bound}", "L2"))
+        return out
     return hook
 
 
